@@ -27,6 +27,8 @@ func devMain(args []string) {
 	workers := fs.Int("j", 16, "workers")
 	solver := fs.String("solver", defaultSolver(), "solver binary")
 	maxp := fs.Int("maxpaths", 0, "path budget")
+	nobatch := fs.Bool("nobatch", false, "one query per assertion")
+	tmo := fs.Int("timeout", 30000, "solver timeout ms")
 	fs.Parse(args[2:])
 	if os.Getenv("GOSYM_PROFILE") != "" {
 		profileSites = map[string]int{}
@@ -38,7 +40,7 @@ func devMain(args []string) {
 		os.Exit(2)
 	}
 	pkg := P.pkgs[P.modPath+"/"+pkgPath]
-	spec := HarnessSpec{Pkg: pkgPath, Func: fn, MaxPaths: *maxp, Opts: ExecOpts{Schedule: *sched, Preemptions: *pre, Races: *races, IntMode: *intm, MapOrders: *orders}}
+	spec := HarnessSpec{Pkg: pkgPath, Func: fn, MaxPaths: *maxp, Opts: ExecOpts{Schedule: *sched, Preemptions: *pre, Races: *races, IntMode: *intm, MapOrders: *orders, NoBatch: *nobatch}, TimeoutMs: *tmo}
 	st := Explore(P, pkg, spec, *workers, *solver, 30000)
 	fmt.Printf("paths=%d completed=%d infeasible=%d steps=%d wall=%v\n", st.Paths, st.Completed, st.Infeasible, st.Steps, st.Wall)
 	fmt.Printf("solver: %+v\n", st.Solver)
